@@ -6,6 +6,69 @@ from vlib import Broken
 ID = "C15"
 LEVEL = "proof"
 HARNESS = "c15"
+# the tensor reader is a header template instantiated in the harness: release semantics (Eigen's assertions off) in both
+# flavours — with assertions on, a negative dimension in a corrupted header aborts in Eigen's resize (see ASSUMPTIONS)
+HARNESS_FLAGS = "-DNDEBUG"
+HARNESS_ENV = {"ASAN_OPTIONS": "detect_leaks=0:abort_on_error=0:allocator_may_return_null=1:max_allocation_size_mb=64"}
+HARNESS_TIMEOUT = 1500
+FLAVOUR = {"quick": "plain", "thorough": "asan"}
+EXHAUSTIVE = {"quick": False, "thorough": False}
+LEAN_MODULES = ["NanoVerif.Props.C15"]
+NS = "NanoVerif.Codec."
+OBLIGATIONS = [NS + t for t in [
+    # generic combinators
+    "seq_roundtrip", "seq_prefix_safe", "dseq_roundtrip", "dseq_prefix_safe", "pmap_roundtrip", "pmap_prefix_safe",
+    "raw_roundtrip", "raw_prefix_safe", "u32_roundtrip", "u32_prefix_safe", "u64_roundtrip", "u64_prefix_safe",
+    "i32_roundtrip", "i32_prefix_safe", "i64_roundtrip", "i64_prefix_safe", "str_roundtrip", "str_prefix_safe",
+    "rep_roundtrip", "rep_prefix_safe", "vec_roundtrip", "vec_prefix_safe", "factory_roundtrip", "factory_prefix_safe",
+    "factory_unknown_id_rejected",
+    # tensors
+    "tensor_roundtrip", "tensor_prefix_rejected", "tensor_header_rejected", "hashCombine_injective_right",
+    "elemHash_injective", "tensor_stream_is_written", "tensor_last_element_corruption_detected",
+    "tensor_payload_corruption_detected_iff_hash", "tensor_payload_corruption_partial",
+    # parameters, configurables, features, factory objects
+    "parameter_roundtrip", "parameter_prefix_rejected", "parameter_unknown_tag_rejected",
+    "configurable_roundtrip", "configurable_prefix_rejected", "configurable_newer_version_rejected",
+    "configurable_older_version_accepted", "feature_roundtrip", "feature_prefix_rejected",
+    "factory_configurable_roundtrip", "factory_configurable_prefix_rejected",
+    # models
+    "learner_roundtrip", "learner_prefix_rejected", "linear_roundtrip", "linear_prefix_rejected",
+    "factory_linear_roundtrip", "factory_linear_prefix_rejected", "wlearner_roundtrip", "wlearner_prefix_rejected",
+    "gboost_roundtrip", "gboost_prefix_rejected",
+]]
+TRUSTED = [
+    "Lean 4.33.0 kernel (core library only for this property; no Mathlib import)",
+    "axioms: at most propext, Classical.choice, Quot.sound (audited per theorem on every run)",
+    "hand-written model NanoVerif/Model/Codec.lean + Model/Wire.lean of core/stream.h, tensor/stream.h, core/hash.h, parameter.cpp, "
+    "configurable.cpp, feature.cpp, learner.cpp, linear.cpp, gboost/model.cpp, wlearner/*.cpp; tied to the code by the byte-level "
+    "correspondence run (decode + re-encode + field dump, every truncation offset, single-byte corruptions; exact comparison)",
+    "NanoVerif/Gen/CodecConsts.lean regenerated on every run from CMakeLists.txt / cmake/version.h.in / include/nano/core/hash.h "
+    "(library version, hash_version, the expression of hash_combine) by the 60-line expression translator in tools/props/c15.py",
+    "tools/props/c15.py generator + oracle (own python tensor/parameter/configurable encoders for the malformed-stream corpus); "
+    "harness/c15.cpp; g++/libstdc++ iostreams/Eigen",
+]
+ASSUMPTIONS = [
+    "x86-64 little-endian, two's complement, IEEE doubles copied bytewise: scalars on the wire are their memory bytes",
+    "doubles and tensor payloads are opaque bit patterns in the model (no float semantics is needed for serialization)",
+    "`reject` = any exception or a failed stream state after the read; the model does not distinguish the two and does not model "
+    "how far the stream was consumed on failure",
+    "release semantics for the header-only tensor reader (harness compiled with -DNDEBUG): with Eigen's assertions enabled a "
+    "corrupted (negative) dimension aborts in Eigen's resize instead of failing the stream — header corruption, outside the statement",
+    "allocation failure for absurd sizes in corrupted headers is a rejection (ASan flavour: allocator_may_return_null=1, "
+    "max_allocation_size_mb=64); the element-count product is computed in unbounded integers in the model (no int64 overflow is "
+    "reachable with one corrupted byte and rank <= 5)",
+    "the factory id lists are what X::all().ids() returns at run time (passed to the model on the op line); the table id -> class "
+    "layout of the eight weak learners is written by hand in Model/Wire.lean and checked by the correspondence for every id",
+    "memory safety (no out-of-bounds read while parsing truncated/corrupted streams) is observed by the ASan/UBSan flavour of the "
+    "thorough tier only (testing)",
+]
+RULE = ("objects: tensors of the 10 scalar types x rank 1..5 x dims 0..6 (boundary-biased to 0 and 1), parameters of all 7 kinds, "
+        "plain configurables, features, every id of the solver/loss/splitter/tuner/lsearch0/lsearchk/linear factories randomly "
+        "configured, the 8 weak learners unfitted and fitted on tiny datasets, fitted linear and gboost models; per object ONE op "
+        "does: write, re-read, re-write, compare fields/parameters/predictions, and read EVERY strict prefix; tensor corruption ops "
+        "try every position x (255 values | 8 bit flips | a mask); hand-made malformed streams with a stated expectation. "
+        "A case is non-trivial when the stream nests >= 2 objects (configurable with parameters, factory object, model) or it is a "
+        "tensor with >= 2 elements (the truncation / corruption then hits dims, hash and payload); distinct by op text")
 
 
 # ---------------------------------------------------------------------------------------------------------
